@@ -21,6 +21,7 @@ type TV struct {
 
 type SpecEnv struct {
 	lets        map[string]ast.Expr
+	inPost      bool // evaluating a postcondition of the function being verified
 	noUnfold    bool // inside the body of a specfn being unfolded: inner applications stay folded
 	assumeLocks bool // evaluating the precondition of the function under verification: holds(x) defines the entry lockset
 	ex   *Exec
@@ -292,7 +293,14 @@ func (env *SpecEnv) lookupPkg(name string) *types.Package {
 			}
 		}
 	}
-	return nil
+	// any package of the program (transitive dependencies)
+	var found *types.Package
+	for _, sp := range env.ex.P.SSA.AllPackages() {
+		if sp.Pkg.Name() == name && (found == nil || len(sp.Pkg.Path()) < len(found.Path())) {
+			found = sp.Pkg
+		}
+	}
+	return found
 }
 
 func (env *SpecEnv) objValue(obj types.Object) TV {
@@ -650,6 +658,9 @@ func (env *SpecEnv) ghostField(base TV, name string) TV {
 	case "bool":
 		srt = SBool
 		gt = types.Typ[types.Bool]
+	case "string":
+		srt = SStr
+		gt = types.Typ[types.String]
 	case "bytes":
 		// an unbounded ghost byte sequence
 		h := env.st.heapGet(tn+".$"+name, SArr(SInt, SArr(SInt, SInt)))
@@ -900,6 +911,45 @@ func (env *SpecEnv) evalCall(c *ast.CallExpr) TV {
 			}
 			return inner.eval(m.Body)
 		}
+		if m, ok := ex.Specs.Opaques[id.Name]; ok {
+			// opaque predicate over immutable state: an uninterpreted symbol of its arguments. Where the
+			// arguments are concrete (no bound variables) and none of them is an object this path is still
+			// building, the definition is revealed for exactly these arguments, evaluated in the current
+			// state - sound because the body may read write-once locations only (checked here).
+			if len(m.Params) != len(c.Args) {
+				tool("spec: opaque %s takes %d arguments", id.Name, len(m.Params))
+			}
+			var fl []*Term
+			inner := env
+			for i, prm := range m.Params {
+				av := env.eval(c.Args[i])
+				inner = inner.with(prm, av)
+				fl = append(fl, flatten(av.V)...)
+			}
+			app := UF("opaque:"+id.Name, SBool, fl...)
+			reveal := !env.noUnfold
+			for _, t := range fl {
+				if mentionsBound(t) || (env.st.Fresh[t] && !env.inPost) {
+					reveal = false
+				}
+			}
+			if reveal {
+				var log []string
+				save := env.st.ReadLog
+				env.st.ReadLog = &log
+				in2 := *inner
+				in2.noUnfold = true
+				body := in2.evalBoolT(m.Body)
+				env.st.ReadLog = save
+				for _, class := range log {
+					if !preservedClass(class) {
+						tool("spec: opaque predicate %s reads mutable state (%s)", id.Name, class)
+					}
+				}
+				env.st.assume(Eq(app, body))
+			}
+			return TV{Scalar{app}, boolT}
+		}
 		if m, ok := ex.Specs.SpecFns[id.Name]; ok {
 			// recursive specification function: an uninterpreted function plus its defining equation
 			// for exactly these arguments (one unfolding per occurrence; the definition must terminate)
@@ -933,6 +983,14 @@ func (env *SpecEnv) evalCall(c *ast.CallExpr) TV {
 			et := under(tt).(*types.Slice).Elem()
 			h := env.st.heapGet("[]"+typeName(et)+"@tag", heapSort(2, SInt))
 			return TV{Scalar{Select(h, sv.Arr)}, nil}
+		case "view":
+			// view(x, I): the interface value x seen under interface type I (ghost fields are per static type)
+			v := env.eval(c.Args[0])
+			t := env.resolveType(c.Args[1])
+			if _, ok := v.V.(IfaceV); !ok || t == nil {
+				tool("spec: view(x, InterfaceType)")
+			}
+			return TV{v.V, t}
 		case "elems":
 			// elems(s): the row of element values of a slice whose elements are single words (pointers, ints)
 			a0 := env.eval(c.Args[0])
@@ -1353,7 +1411,7 @@ func (env *SpecEnv) callPure(fn *ssa.Function, recv *TV, argExprs []ast.Expr) TV
 }
 
 // evalPureFn runs fn on a scratch copy of the state and merges the returned values with ite.
-func (ex *Exec) evalPureFn(st *State, fn *ssa.Function, args []Value) Value {
+func (ex *Exec) evalPureFn(st *State, fn *ssa.Function, args []Value, binds ...Value) Value {
 	name := specName(fn)
 	if sp := ex.Specs.Funcs[name]; sp != nil && !ex.inRepoBody(fn) {
 		// extern pure function with contract
@@ -1384,7 +1442,12 @@ func (ex *Exec) evalPureFn(st *State, fn *ssa.Function, args []Value) Value {
 	savedTop := ex.TopName
 	pc := &pureCollector{base: sub.PC}
 	ex.pure = pc
-	ex.pushFrame(sub, fn, args, nil, 0)
+	pf := ex.pushFrame(sub, fn, args, nil, 0)
+	for i, fv := range fn.FreeVars {
+		if i < len(binds) {
+			pf.Regs[fv] = binds[i]
+		}
+	}
 	paths0 := ex.Paths
 	ex.run(sub)
 	ex.Paths = paths0
